@@ -1,10 +1,14 @@
 import Shuttle.Drive.C18
+import Shuttle.Drive.C01
+import Shuttle.Drive.C02
 /-! Line protocol: each input line is `(<prop> <request>)`; one output line per input line. -/
 open Shuttle
 
 def dispatch (line : String) : String :=
   match Sexp.parse line with
   | some (.list [.atom "C18", req]) => Drive.C18.handle req
+  | some (.list [.atom "C01", req]) => Drive.C01.handle req
+  | some (.list [.atom "C02", req]) => Drive.C02.handle req
   | some _ => "bad-op"
   | none => "bad-parse"
 
